@@ -19,8 +19,10 @@ import (
 	"os"
 	"path/filepath"
 	"sort"
+	"strconv"
 	"strings"
 	"sync"
+	"sync/atomic"
 	"time"
 
 	"github.com/BurntSushi/toml"
@@ -59,6 +61,7 @@ type Input struct {
 
 type RotObs struct {
 	Sec  int64  `json:"sec"`
+	K    int    `json:"k"` // <file>.<ts>.<k>; 0 = no suffix
 	Len  int    `json:"len"`
 	Head string `json:"head"` // first bytes, for the reader of a replay file
 	data []byte
@@ -114,6 +117,14 @@ func readRot(path string, base int64) ([]RotObs, error) {
 	var out []RotObs
 	for _, f := range m {
 		ts := strings.TrimPrefix(f, path+".")
+		k := 0
+		if i := strings.IndexByte(ts, '.'); i >= 0 {
+			n, err := strconv.Atoi(ts[i+1:])
+			if err != nil || n < 1 || strconv.Itoa(n) != ts[i+1:] {
+				return nil, fmt.Errorf("rotated file with unexpected name %q", filepath.Base(f))
+			}
+			k, ts = n, ts[:i]
+		}
 		t, err := time.ParseInLocation(tsLayout, ts, time.Local)
 		if err != nil {
 			return nil, fmt.Errorf("rotated file with unexpected name %q", filepath.Base(f))
@@ -122,9 +133,11 @@ func readRot(path string, base int64) ([]RotObs, error) {
 		if err != nil {
 			return nil, err
 		}
-		out = append(out, RotObs{Sec: t.Unix() - base, Len: len(b), Head: head(b), data: b})
+		out = append(out, RotObs{Sec: t.Unix() - base, K: k, Len: len(b), Head: head(b), data: b})
 	}
-	sort.Slice(out, func(i, j int) bool { return out[i].Sec < out[j].Sec })
+	sort.Slice(out, func(i, j int) bool {
+		return out[i].Sec < out[j].Sec || (out[i].Sec == out[j].Sec && out[i].K < out[j].K)
+	})
 	return out, nil
 }
 
@@ -293,9 +306,9 @@ func coqRLE(b []byte) string {
 func coqRot(rs []RotObs) string {
 	var es []string
 	for _, r := range rs {
-		es = append(es, fmt.Sprintf("(%s, %s)", hx.CoqN(uint64(r.Sec)), coqRLE(r.data)))
+		es = append(es, fmt.Sprintf("(%s, %s, %s)", hx.CoqN(uint64(r.Sec)), hx.CoqN(uint64(r.K)), coqRLE(r.data)))
 	}
-	return hx.CoqList(es, "(N * rle)")
+	return hx.CoqList(es, "(N * N * rle)")
 }
 
 func coqRLEs(bs [][]byte) string {
@@ -549,12 +562,9 @@ func genW(r *hx.Rand, big bool) WIn {
 		default:
 			n = r.PickInt([]int{16, 17, 20, 33, 50, 100, 100, 120, 250})
 		}
-		// every byte beyond max costs one rename + fsync: keep oversize lines barely oversize
-		if max < 1024 && n > max+3 {
-			n = r.PickInt([]int{16, 17, 20, 33, 50, max - 1, max, max + 1, max + 3})
-		}
-		if n > max+30 {
-			n = max + 30
+		// a line larger than the whole file is written in one piece (one rotation + fsync each)
+		if n > 4*max {
+			n = 4 * max
 		}
 		if n < minLen {
 			n = minLen
@@ -693,6 +703,8 @@ type job struct {
 	in Input
 }
 
+var clockRetries int64 // cases run again because a clock reading straddled a second boundary
+
 func runJob(j job, scratch string) hx.Case {
 	dir := filepath.Join(scratch, fmt.Sprintf("c%d", j.id))
 	defer os.RemoveAll(dir)
@@ -700,6 +712,7 @@ func runJob(j job, scratch string) hx.Case {
 		if j.in.W != nil {
 			ob, batches, initB, crash, amb := runW(*j.in.W, dir)
 			if amb && attempt < 12 {
+				atomic.AddInt64(&clockRetries, 1)
 				continue
 			}
 			if amb {
@@ -713,6 +726,7 @@ func runJob(j job, scratch string) hx.Case {
 		}
 		ob, lines, initB, crash, amb := runC(*j.in.C, dir)
 		if amb && attempt < 12 {
+			atomic.AddInt64(&clockRetries, 1)
 			continue
 		}
 		if amb {
@@ -740,13 +754,13 @@ func main() {
 		ins = []Input{in}
 	} else {
 		// corpus
-		// (a) no newline inside the remaining window: first byte of the second line is dropped
+		// no newline inside the remaining window (before the repair the first byte of the second line was dropped)
 		w(WIn{Max: 1024, Ops: []Op{{K: "w", Lens: []int{1000}}, {K: "w", Lens: []int{100}}}})
-		// (a) file exactly full
+		// file exactly full
 		w(WIn{Max: 1024, Ops: []Op{{K: "w", Lens: []int{1024}}, {K: "w", Lens: []int{100}}}})
-		// (a) a line larger than max: one byte dropped and one rename per iteration
+		// a line larger than max (before the repair: one byte dropped and one rename per iteration)
 		w(WIn{Max: 1024, Ops: []Op{{K: "w", Lens: []int{300}}, {K: "w", Lens: []int{1030}}}})
-		// (b) two clean rotations within one second: the first rotated file is replaced
+		// two clean rotations within one second (before the repair the first rotated file was replaced)
 		w(WIn{Max: 1024, Ops: []Op{{K: "w", Lens: rep(100, 25)}}})
 		w(WIn{Max: 1024, Ops: []Op{{K: "w", Lens: rep(100, 15)}, {K: "w", Lens: rep(100, 10)}}})
 		// clean: the same two rotations in different seconds; the fitting-exactly split
@@ -759,7 +773,7 @@ func main() {
 		c(CIn{Max: 1024, Openable: false, Bursts: [][]int{{100}}})
 		// channel: one event per idle flush, the third does not fit any more
 		c(CIn{Max: 1024, Openable: true, Bursts: [][]int{{400}, {400}, {400}}})
-		// channel: a burst of 3000 bytes into a 1024-byte file: three rotations in one second
+		// channel: a burst of 3000 bytes into a 1024-byte file: several rotations in one second
 		c(CIn{Max: 1024, Openable: true, Bursts: [][]int{rep(100, 30)}})
 		// channel, clean: no rotation; one rotation that falls on a newline
 		c(CIn{Max: 4096, Openable: true, Bursts: [][]int{rep(100, 12)}})
@@ -772,7 +786,7 @@ func main() {
 		var depth int
 		switch o.Tier {
 		case "quick":
-			nrand, nbig, nchan, set, depth = 450, 2, 6, []int{100, 512, 924, 925, 1024, 1025}, 3
+			nrand, nbig, nchan, set, depth = 400, 1, 6, []int{100, 512, 924, 925, 1024, 1025}, 3
 		case "search":
 			nrand, nbig, nchan, set, depth = 1500, 6, 12, []int{100, 512, 924, 925, 1024, 1025}, 4
 		default:
@@ -870,5 +884,6 @@ func main() {
 		}
 		dist[fmt.Sprintf("rotated-files-at-end:%d", nr)]++
 	}
+	dist["clock-ambiguous-reruns"] = int(atomic.LoadInt64(&clockRetries))
 	hx.Write(o, "C07", "rotate", "From HT Require Import Common.Bytes C07.Model C07.Check.", "case", cases, dist, nil, 60)
 }
